@@ -29,7 +29,8 @@ S = Suite(
           "incommensurate}, modes truncated / at / above the padded size, closures MOST, "
           "MOSTM, CONSTANT, OAAHOC and hand-built anisotropic veering profiles, nz 6..17, "
           "random / sparse / smooth sources, all output levels incl. the top node, single "
-          "and double precision; a sample of this family, not all inputs",
+          "and double precision; point_measurement on every pair of memory layouts (C, Fortran, transposed view, strided); "
+          "a sample of this family, not all inputs",
     rule="|sum(q0*fp) - field[jm,im]| <= tol*max|field| with tol = max(1e-9 (double) or 1e-4 "
          "(single), 300*eps*exp(G)), G = max over retained wavenumbers of sum_i Re(lambda_i) dz_i "
          "below the output level (rounding amplification of the shooting solve; G<=9.6 leaves "
@@ -165,6 +166,34 @@ def reciprocity(nx, ny, dx, dy, halo, modes, im, jm, level, prof, src, seed, bg,
                    measured=max(ef, ec) / tol)
 
 
+@S.kind("point-measurement")
+def point_measurement_layouts(ny, nx, layout_f, layout_g, seed):
+    """utils.point_measurement(f, g) = sum over the grid of f*g, whatever the memory layout of the two fields (C order,
+    Fortran order, a transposed view of data read as (x, y), a strided slice): cells are paired by INDEX."""
+    import math
+    from bldfm.utils import point_measurement
+    rng = np.random.default_rng(seed)
+
+    def lay(a, how):
+        if how == "F":
+            return np.asfortranarray(a)
+        if how == "T":                       # same values, stored as (x, y) and handed over as a .T view
+            return np.ascontiguousarray(a.T).T
+        if how == "strided":
+            big = np.zeros((2 * a.shape[0], 2 * a.shape[1]))
+            big[::2, ::2] = a
+            return big[::2, ::2]
+        return np.ascontiguousarray(a)
+    f0, g0 = rng.standard_normal((ny, nx)), rng.random((ny, nx))
+    f, g = lay(f0, layout_f), lay(g0, layout_g)
+    got = float(point_measurement(f, g))
+    want = math.fsum(float(f0[j, i]) * float(g0[j, i]) for j in range(ny) for i in range(nx))
+    scale = math.fsum(abs(float(f0[j, i]) * float(g0[j, i])) for j in range(ny) for i in range(nx))
+    ok = abs(got - want) <= 1e-12 * scale
+    return Verdict(ok, "layouts %s x %s, %dx%d: point_measurement=%.15g, sum f*g=%.15g" % (layout_f, layout_g, ny, nx, got, want),
+                   key="point-measurement-pairs-cells-by-memory-order")
+
+
 # ------------------------------------------------------------------ bounded family
 SPACINGS = [  # (dx, dy, commensurate halo, incommensurate halo); all exactly representable
     (10.0, 7.5, 30.0, 20.0),
@@ -244,6 +273,8 @@ def generate(tier, rng):
     for nx, ny in ((9, 7), (7, 10), (12, 9)):
         for hk in ("zero", "none", "incomm", "comm"):
             yield case(nx, ny, 0, hk, "above", 5, "random", "double")
+    for k, (lf, lg) in enumerate([(a, b) for a in ("C", "F", "T", "strided") for b in ("C", "F", "T", "strided")]):
+        yield "point-measurement", dict(ny=(5, 8, 12)[k % 3], nx=(7, 8, 9)[(k // 3) % 3], layout_f=lf, layout_g=lg, seed=rng.randint(0, 2 ** 31 - 1))
     # every column (and a walk through the rows) of a grid with non-representable increments as tower
     for im in range(48):
         yield case(48, 30, 6, ("zero", "incomm", "none")[im % 3], "trunc", (0, 5)[im % 2], "sparse", "double", pt=(im, (7 * im) % 30))
